@@ -228,22 +228,17 @@ def tableBounds (basis : Nat) (run : Run α) : Except LoadErr ((Nat → α) × (
   | .vec [_, _] => pure (fun t => (rows t).get 0, fun t => (rows t).get 1)
   | _ => throw .unmodelled
 
-/-- `bounds = -1*run_to_array(d['bounds']); bounds = np.array([bounds[:,1], bounds[:,0]])`
-(builder_loader.py:91-92): the pair (new lower vector, new upper vector), a `(2, basis)` array. -/
+/-- `bounds = -1*run_to_array(d['bounds']); bounds = np.stack((bounds[:,1], bounds[:,0]), axis=1)`
+(builder_loader.py:91-92): the `(basis, 2)` table whose row `t` is `(-1*hi t, -1*lo t)`, as the pair
+(lower column, upper column).  Being of shape `(len, 2)` it is read by `validate_bounds`
+(basedevice.py:192) as the per-slot table it is, for every `basis`. -/
 def supplyPair (lo hi : Nat → α) : (Nat → α) × (Nat → α) :=
   (fun t => -1 * hi t, fun t => -1 * lo t)
 
-/-- how `validate_bounds` (basedevice.py:192-216) reads the `(2, basis)` array of a supply device:
-as the pair (lower vector, upper vector) — except when `basis = 2`, where the array has the shape
-`(len, 2)` of a per-slot *table* and row `i` is taken as slot `i`'s `(low, high)`. -/
-def readPair (basis : Nat) (p : (Nat → α) × (Nat → α)) : (Nat → α) × (Nat → α) :=
-  if basis = 2 then
-    (fun t => if t = 0 then p.1 0 else p.2 0, fun t => if t = 0 then p.1 1 else p.2 1)
-  else p
-
-/-- the bounds a supply device ends up with. -/
+/-- the bounds a supply device ends up with: the negated-and-swapped table, accepted by
+`validate_bounds` when every row is ordered (`ValueError` otherwise). -/
 def supplyBounds (basis : Nat) (lo hi : Nat → α) : Except LoadErr ((Nat → α) × (Nat → α)) :=
-  let q := readPair basis (supplyPair lo hi)
+  let q := supplyPair lo hi
   if boundsOrdered basis q.1 q.2 then .ok q else .error .valueError
 
 /-- `lbounds[s:e].sum()` with Python's clipping. -/
@@ -420,7 +415,7 @@ def loadDevice (basis : Nat) : DevSpec α → Except LoadErr (Leaf α)
     let b ← tableBounds basis bounds
     let p := supplyPair b.1 b.2
     let cbs ← loadCbounds basis cb
-    let raw : RawBounds α := ⟨2, basis, fun r t => if r = 0 then p.1 t else p.2 t⟩
+    let raw : RawBounds α := ⟨basis, 2, fun t c => if c = 0 then p.1 t else p.2 t⟩
     let f ← loadCostFunction basis costs raw cbs
     let q ← supplyBounds basis b.1 b.2
     checkDevice basis q cbs
